@@ -106,7 +106,7 @@ def check(run):
                         book = src
                     else:
                         out = os.path.join(dd, 'out')
-                        m.write(solution=sol, dirpath=out)
+                        books = m.write(solution=sol, dirpath=out)
                         files = os.listdir(out)
                         book = openpyxl.load_workbook(os.path.join(out, files[0]))
                 except Exception as ex:
@@ -124,6 +124,16 @@ def check(run):
                     if not same(got, exp, disk=(target == 'disk')):
                         run.violation('written cell %s holds %r, the solution has %r' % (wb.key(s, r, c), got, exp), dict(c2, cell=wb.key(s, r, c)))
                         break
+                if target in ('fresh', 'disk'):
+                    # a book made by write() holds the solution and nothing else (nothing left over from an earlier write)
+                    known = {(wb.sheets[s][1].upper(), r, c) for (s, r, c) in vals}
+                    extra = [(ws.title, cl.coordinate, cl.value) for ws in book.worksheets for row in ws.iter_rows() for cl in row
+                             if cl.value is not None and (ws.title.upper(), cl.row, cl.column) not in known]
+                    if extra:
+                        run.violation('the written book holds %r in %s!%s, which is no cell of the solution' % (extra[0][2], extra[0][0], extra[0][1]),
+                                      dict(c2, extra=[list(map(str, e)) for e in extra[:5]]))
+                    if len(books) != 1:
+                        run.violation('write() returned the books %s for a single-book solution' % sorted(books), c2)
                 if target == 'loaded':
                     a, b = book[book.sheetnames[0]]['H20'].value, book[book.sheetnames[-1]]['J15'].value
                     if a != 'outside' or b != 12345:
